@@ -30,6 +30,14 @@ namespace bloc
 {
 #define IMAGINARY_TO_COMPLEX(i) std::complex<Numeric>((i).a, (i).b)
 
+const Type& ACOSExpression::type(Context &ctx) const
+{
+  const Type& t0 = _args[0]->type(ctx);
+  if (t0 == Type::IMAGINARY)
+    return Value::type_imaginary;
+  return Value::type_numeric;
+}
+
 Value& ACOSExpression::value(Context & ctx) const
 {
   Value& val = _args[0]->value(ctx);
